@@ -488,6 +488,32 @@ def check_c12(ctx):
             pts = sorted(rng.randrange(len(data) + 1) for _ in range(k - 1))
             pieces = [data[a:b] for a, b in zip([0] + pts, pts + [len(data)])]
             lines.append('resume ' + ','.join(p.hex() for p in pieces)); meta.append(('resume', log, data))
+    # logs with one LARGE entry (an event carrying a long string): readers that take the payload in blocks, or size their
+    # buffer lazily, are only exercised by entries larger than any block size; cuts are biased to the multiples of the powers
+    # of two inside the large entry
+    nbig = cases_count(ctx, 4, 40)
+    for li in range(nbig):
+        big = rng.choice([4095, 4096, 4097, 5000, 8191, 8192, 8193, 10000, 16385, 70000][:7 if ctx.tier == 'quick' else 10])
+        log = [G.cs_payload(1, 10 ** 9, 0, 0, b'UTC'), G.source_payload(1, 128, b'c', b'f', b'x.cpp', 1, b'{}', b'[c'),
+               G.event_payload(1, 5, G.u32(3) + b'abc'),
+               G.event_payload(1, 6, G.u32(big) + bytes(97 + (i * 7 + li) % 26 for i in range(big))),
+               G.event_payload(1, 7, G.u32(2) + b'yz')]
+        data = G.frames(log)
+        start = len(G.frames(log[:3]))
+        lines.append('readall ' + G.hexs(data)); meta.append(('full', log, data))
+        cuts = {start, start + 3, start + 4, start + 4 + 16, len(data) - 1, len(data), len(data) - 14, len(data) - 15}
+        for blk in (512, 1024, 4096, 8192, 65536):
+            for k in range(1, 3):
+                for d in (-1, 0, 1, 4, 5, 24, 25):
+                    cuts.add(start + blk * k + d)
+        cuts |= set(rng.randrange(len(data) + 1) for _ in range(12))
+        for n in sorted(c for c in cuts if 0 <= c <= len(data)):
+            lines.append('readall ' + G.hexs(data[:n])); meta.append(('cut', log, data, n))
+        for _ in range(4):
+            pts = sorted({rng.choice([start + 4 + 4096, start + 4100, start + 5000, start + 8192 + 4, rng.randrange(len(data) + 1)]) for _ in range(rng.choice([1, 2, 3]))})
+            pts = [x for x in pts if x <= len(data)]
+            pieces = [data[a:b] for a, b in zip([0] + pts, pts + [len(data)])]
+            lines.append('resume ' + ','.join(x.hex() for x in pieces)); meta.append(('resume', log, data))
     impl, model, mism = diff_streams(ctx, 'prefix+resume', exe, lines)
     prop_fail, nontrivial = set(), set()
     full_items = None
@@ -545,7 +571,8 @@ def check_c12(ctx):
     ctx.coverage.update({'evaluations': len(lines), 'distinct_nontrivial': len(nontrivial),
                          'traces_validated_against_impl': len(lines) - len(mism),
                          'rule': 'generated well-formed logs (all entry kinds); every cut offset for logs <= 160 bytes (all logs in the '
-                                 'thorough tier), 120 sampled offsets otherwise; plus the log delivered in 2..5 random pieces to a growing '
+                                 'thorough tier), 120 sampled offsets otherwise; logs with one large entry (4 KiB .. 70 KB payload) cut around the multiples of '
+                                 'the powers of two inside it; plus the log delivered in 2..5 pieces to a growing '
                                  'stream; non-trivial = cut strictly inside an entry, or a multi-piece delivery; distinct by input line'})
     ctx.samples = [lines[1][:200], lines[-1][:300]]
     return ctx.finish()
